@@ -523,6 +523,17 @@ const ENUM_VALUES: [&str; 18] = [
     "NEWHOPE", "EMPIRE", "JEDI", "red", "Green", "dark_blue", "lightBlue", "ON", "OFF", "type", "self", "where", "Self", "_x", "A1", "async", "Other", "OTHER",
 ];
 
+/// every keyword of the Rust reference (strict, reserved, weak that lex as keywords; 2018+ editions), written here
+/// independently of the generator's own table: a name position must be safe for each of them. (`self` is left out of the
+/// field pool because `Self` is in it and the two collide after snake-casing — known finding C02-snake-collision;
+/// `true` / `false` are not GraphQL names an enum value may have and are left to the keyword-table theorems of C11.)
+pub const ALL_KEYWORDS: [&str; 49] = [
+    "Self", "abstract", "as", "async", "await", "become", "box", "break", "const", "continue", "crate", "do", "dyn", "else", "enum",
+    "extern", "final", "fn", "for", "if", "impl", "in", "let", "loop", "macro", "match", "mod", "move", "mut", "override", "priv",
+    "pub", "ref", "return", "static", "struct", "super", "trait", "try", "type", "typeof", "union", "unsafe", "unsized", "use",
+    "virtual", "where", "while", "yield",
+];
+
 fn pick_distinct(rng: &mut Rng, pool: &[&str], n: usize) -> Vec<String> {
     let mut v: Vec<String> = pool.iter().map(|s| s.to_string()).collect();
     rng.shuffle(&mut v);
@@ -558,7 +569,17 @@ pub fn random_schema(rng: &mut Rng, k: &SchemaKnobs) -> ASchema {
     let n_in = rng.range(0, 3);
     let inputs = pick_distinct(rng, &INPUT_NAMES, n_in);
 
-    let field_pool: Vec<&str> = if k.keywords_as_names { FIELD_NAMES.to_vec() } else { FIELD_NAMES[..20].to_vec() };
+    let mut field_pool: Vec<&str> = if k.keywords_as_names { FIELD_NAMES.to_vec() } else { FIELD_NAMES[..20].to_vec() };
+    if k.keywords_as_names {
+        // six more keywords per schema, drawn from the whole reference list (over the cases of a run every keyword occurs)
+        for kw in pick_distinct(rng, &ALL_KEYWORDS, 6) {
+            if let Some(k) = ALL_KEYWORDS.iter().find(|x| **x == kw) {
+                if !field_pool.contains(k) {
+                    field_pool.push(k);
+                }
+            }
+        }
+    }
     let leaf_types: Vec<String> = ["Int", "Float", "String", "Boolean", "ID"]
         .iter()
         .map(|s| s.to_string())
@@ -573,7 +594,16 @@ pub fn random_schema(rng: &mut Rng, k: &SchemaKnobs) -> ASchema {
     }
     for e in &enums {
         let n = rng.range(1, 5);
-        let pool: Vec<&str> = if k.keywords_as_names { ENUM_VALUES.to_vec() } else { ENUM_VALUES[..9].to_vec() };
+        let mut pool: Vec<&str> = if k.keywords_as_names { ENUM_VALUES.to_vec() } else { ENUM_VALUES[..9].to_vec() };
+        if k.keywords_as_names {
+            for kw in pick_distinct(rng, &ALL_KEYWORDS, 4) {
+                if let Some(k) = ALL_KEYWORDS.iter().find(|x| **x == kw) {
+                    if !pool.contains(k) {
+                        pool.push(k);
+                    }
+                }
+            }
+        }
         // values whose identifiers coincide under `normalization = rust` (`self` / `Self`) make the generated
         // enum declare one variant twice: that is C02's known finding `enum-values-equal-after-normalization`
         // (witness in its corpus); the random schemas stay clear of it
